@@ -440,7 +440,7 @@ func (ls *LState) DoString(source string) error {
 // ToStringMeta returns string representation of given LValue.
 // This method calls the `__tostring` meta method if defined.
 func (ls *LState) ToStringMeta(lv LValue) LValue {
-	if fn, ok := ls.metaOp1(lv, "__tostring").(*LFunction); ok {
+	if fn := ls.metaOp1(lv, "__tostring"); fn != LNil {
 		ls.Push(fn)
 		ls.Push(lv)
 		ls.Call(1, 1)
